@@ -178,6 +178,7 @@ C08_SCENARIO(eventloopthread_dtor)
 namespace c08 { Stall g_stall; }
 extern "C" void __real___tsan_read8(void* addr);
 extern "C" void __real___tsan_write4(void* addr);
+extern "C" void __real___tsan_read4(void* addr);
 static inline __attribute__((no_sanitize("thread"), always_inline)) void c08_maybe_stall(void* a, int w)
 {
   if (c08::g_stall.armed.load(std::memory_order_relaxed) &&
@@ -195,6 +196,11 @@ extern "C" __attribute__((no_sanitize("thread"))) void __wrap___tsan_read8(void*
   c08_maybe_stall(addr, 0);
   // tail call: the runtime takes its caller's return address as the pc of the access - it must be the instrumented code's
   [[clang::musttail]] return __real___tsan_read8(addr);
+}
+extern "C" __attribute__((no_sanitize("thread"))) void __wrap___tsan_read4(void* addr)
+{
+  c08_maybe_stall(addr, 2);
+  [[clang::musttail]] return __real___tsan_read4(addr);
 }
 extern "C" __attribute__((no_sanitize("thread"))) void __wrap___tsan_write4(void* addr)
 {
